@@ -485,25 +485,38 @@ def outcomes_by_case(stmts, cases, atom, facts=None, on_node=None):
     base = mk_atoms(facts or {})
     for case in cases:
         def ev(e, cenv):
-            v = eval3(e, {k: v_ for k, v_ in cenv.items() if not isinstance(v_, ast.AST)}, base)
-            if v is not UNK:
-                return v
-            # locals assigned a non-constant expression on this path are replaced by that expression (so that a verdict computed into a
-            # temporary and tested later is followed)
+            consts = {k: v_ for k, v_ in cenv.items() if not isinstance(v_, ast.AST)}
             sub = {k: v_ for k, v_ in cenv.items() if isinstance(v_, ast.AST)}
+            # locals assigned a non-constant expression on this path are replaced by that expression (a verdict computed into a temporary
+            # and tested later is followed)
             e2 = e
             for _ in range(4):
                 if not sub or not (names_in(e2) & set(sub)):
                     break
                 e2 = _subst_names(e2, sub)
-            if e2 is not e:
-                v = eval3(e2, {k: v_ for k, v_ in cenv.items() if not isinstance(v_, ast.AST)}, base)
+
+            def rec(x):
+                """3-valued: facts / constants first, then the comparison predicates over the abstract case; and / or / not combine"""
+                v = eval3(x, consts, base)
                 if v is not UNK:
                     return v
-            try:
-                return eval_pred(e2, case, atom)
-            except Exception:
-                return UNK
+                if isinstance(x, ast.BoolOp):
+                    vals = [rec(v_) for v_ in x.values]
+                    if isinstance(x.op, ast.And):
+                        if any(v_ is not UNK and not v_ for v_ in vals):
+                            return False
+                        return UNK if any(v_ is UNK for v_ in vals) else vals[-1]
+                    if any(v_ is not UNK and v_ for v_ in vals):
+                        return True
+                    return UNK if any(v_ is UNK for v_ in vals) else vals[-1]
+                if isinstance(x, ast.UnaryOp) and isinstance(x.op, ast.Not):
+                    v = rec(x.operand)
+                    return UNK if v is UNK else (not v)
+                try:
+                    return eval_pred(x, case, atom)
+                except Exception:
+                    return UNK
+            return rec(e2)
 
         def step(state, node, label, case=case):
             cenv, last, passed = state
